@@ -88,13 +88,25 @@ func vEqStr(a, b string) bool   { return a == b }
 func vNow() time.Time           { return time.Now() }
 
 // Native replays run inside a testing/synctest bubble: time is virtual and exact.
+var vRealTime bool
+
 func vAdvance(d time.Duration) {
 	if d > 0 {
 		time.Sleep(d)
 	}
+	if vRealTime {
+		time.Sleep(30 * time.Millisecond)
+		return
+	}
 	synctest.Wait()
 }
-func vYield() { synctest.Wait() }
+func vYield() {
+	if vRealTime {
+		time.Sleep(30 * time.Millisecond)
+		return
+	}
+	synctest.Wait()
+}
 
 func vOpt(name string, v int)   {}
 func vTimerPending(t *time.Timer) bool { return true }
